@@ -82,6 +82,22 @@ func H_compile() {
 		return
 	}
 	vAssert((e != nil && e.q != nil && err == nil) || (e == nil && err != nil), "exactly-one-of-expr-error")
+	if e != nil && err == nil {
+		// "usable": the returned expression can be evaluated and iterated on a small
+		// document without a Go run-time error
+		doc := vTinyDoc()
+		use := vGuard(func() {
+			if it, ok := e.Evaluate(navAt(doc, 1, -1)).(*NodeIterator); ok {
+				vDrain(it, 8)
+			}
+			vDrain(e.Select(navAt(doc, 1, -1)), 8)
+			if e3 != nil {
+				vDrain(e3.Select(navAt(doc, 0, -1)), 8)
+			}
+		})
+		vObserve("use-panic-class", use)
+		vAssert(use != 1, "returned-expression-is-usable")
+	}
 	vAssert((e2 != nil && e2.q != nil && err2 == nil) || (e2 == nil && err2 != nil), "exactly-one-of-expr-error:ns")
 	vAssert(e3 != nil && e3.q != nil, "mustcompile-usable")
 }
@@ -177,4 +193,23 @@ func H_guard() {
 			vAssert(true, "below-limit")
 		}
 	}
+}
+
+// vTinyDoc: <a k="1"><b>x</b></a> as concrete symDoc arrays.
+func vTinyDoc() *symDoc {
+	N := 4
+	doc := &symDoc{N: N, A: 1, names: []string{"a", "b", "k"}, pool: []string{"", "1", "x"}, prefixes: []string{""}, uris: []string{""}}
+	doc.d = []int{0, 1, 2, 3}
+	doc.kind = []int{0, 1, 1, 3}
+	doc.name = []int{0, 0, 1, 0}
+	doc.pfx, doc.uri = make([]int, N), make([]int, N)
+	doc.val = []int{0, 2, 2, 2}
+	doc.nattr = []int{0, 1, 0, 0}
+	doc.aname, doc.apfx, doc.auri, doc.aval = make([][]int, N), make([][]int, N), make([][]int, N), make([][]int, N)
+	doc.mChild, doc.mNext, doc.mPrev, doc.mParent = make([]int, N), make([]int, N), make([]int, N), make([]int, N)
+	for i := 0; i < N; i++ {
+		doc.aname[i], doc.apfx[i], doc.auri[i], doc.aval[i] = []int{2}, []int{0}, []int{0}, []int{1}
+		doc.mChild[i], doc.mNext[i], doc.mPrev[i], doc.mParent[i] = -2, -2, -2, -2
+	}
+	return doc
 }
